@@ -110,7 +110,7 @@ TmpResidue ==
 Unique(d) == EffLimit(cfg) <= 0 \/ \A a, b \in Live(d) : a = b \/ a.maxt # b.maxt
 Obs(r, d) == [err |-> r.err, unique |-> Unique(d),
               legal |-> IF r.err \/ RetentionOK(d, {b \in d : b.id \notin r.del}, head, cfg) THEN "ok"
-                        ELSE "size-retention-counts-superseded",
+                        ELSE "transcription-deviates",
               blocks |-> IF r.err THEN <<>> ELSE BlocksOrder(d, r.keep),
               dirs |-> IF r.err THEN Ids(d) ELSE Ids(d) \ r.del]
 
@@ -178,17 +178,17 @@ TypeOK == /\ \A b \in disk : b.mint < b.maxt /\ b.size > 0
           /\ \A a, b \in disk : a.id = b.id => a = b
           /\ tmp \cap Ids(disk) = {}
 
-\* every successful reload obeys the property (or is an instance of the recorded finding)
+\* every successful reload obeys the property
 AfterReload(d, r) == {b \in d : b.id \notin r.del}
 ReloadOK ==
   LET r == ReloadRes(disk, head, cfg) IN
   r.err \/ RetentionOK(disk, AfterReload(disk, r), head, cfg)
-        \/ KF_C09_1(disk, AfterReload(disk, r), head, cfg)
 
-\* without anything superseded or flagged on disk the finding cannot be the excuse
+\* in particular when superseded or flagged blocks are on disk next to live ones (the state right after a
+\* compaction, or after a crash between writing the child and deleting its parents)
 ReloadExact ==
   LET r == ReloadRes(disk, head, cfg) IN
-  (~r.err /\ Loadable(disk) = Live(disk)) => RetentionOK(disk, AfterReload(disk, r), head, cfg)
+  (~r.err /\ Loadable(disk) # Live(disk)) => RetentionOK(disk, AfterReload(disk, r), head, cfg)
 
 \* db.blocks only ever names directories that exist and open; a reload that reports an error changes nothing
 LoadedOnDisk == loaded \subseteq Ids(Loadable(disk)) /\ (~alive => loaded = {})
